@@ -2,6 +2,7 @@ import JediModel.Lemmas.Refs
 import JediModel.Lemmas.Rename
 import JediModel.Lemmas.RefsSound
 import JediModel.Lemmas.RefsMulti
+import JediModel.Lemmas.RefsGlobal
 import JediModel.Model.KwBind
 import JediModel.Gen.C05
 /-! # C05 — Rename rewrites exactly the references and preserves behaviour
@@ -163,6 +164,97 @@ theorem class_attr_not_partition :
     WF witnessClassAttr = true ∧ varOf witnessClassAttr 3 = varOf witnessClassAttr 0 ∧
     varOf witnessClassAttr 2 ≠ varOf witnessClassAttr 0 ∧
     2 ∈ refs witnessClassAttr 3 ∧ 2 ∉ refs witnessClassAttr 0 ∧ 3 ∈ refs witnessClassAttr 0 := by decide
+
+/-! ## one module variable, `global` statements in several scopes
+
+`Model/RefsGlobal`: `_find_global_variables` with its decision - which `global x` statements of the
+module are linked to the found names - as a parameter the translator reads from the source
+(`Gen.C05.globalStepSameScopeOnly`).  All `global x` statements of a module declare ONE variable;
+the theorems say that every binding made under any of them is reported from every start, whatever
+scope the start sits in. -/
+
+/-- the model the correspondence stream `refs` runs is the one the theorems above speak about -/
+theorem refsG_is_refs (p : Prog) (u : Nat) :
+    refsG JediModel.Gen.C05.globalStepSameScopeOnly p u = refs p u := refsG_false p u
+
+/-- **the global step links every `global x` statement of the module**, whatever the found names
+are: the name in the statement and every definition of `x` in the statement's scope are among the
+names `_find_global_variables` yields. -/
+theorem global_step_links_every_statement (p : Prog) (ctxs : List Nat) (x g : Nat) (og : Occ)
+    (hg : g ∈ globalDecls p x) (hog : p.occs[g]? = some og) :
+    g ∈ globalVariablesOf JediModel.Gen.C05.globalStepSameScopeOnly p ctxs x ∧
+    ∀ d ∈ allDefsIn p og.scope x,
+      d ∈ globalVariablesOf JediModel.Gen.C05.globalStepSameScopeOnly p ctxs x := by
+  have hl : globalLinked JediModel.Gen.C05.globalStepSameScopeOnly ctxs og.scope = true := by
+    simp [globalLinked, JediModel.Gen.C05.globalStepSameScopeOnly]
+  exact ⟨mem_globalVariablesOf _ p ctxs x g og hg hog hl g (Or.inl rfl),
+    fun d hd => mem_globalVariablesOf _ p ctxs x g og hg hog hl d (Or.inr hd)⟩
+
+/-- **every writer of the module variable is a reference, from every start**: if scope `s` (a
+function, a class body, at any depth) contains a `global x` statement `g`, then `g` and every binding
+`d` of `x` in `s` - which Python makes a binding of the MODULE's variable (`varOf = 0`) - are
+reported by `find_references` from every occurrence `u` spelled `x`: from the module level, from a
+reader, and from inside any OTHER declaring scope.  So rename leaves no writer behind. -/
+theorem global_writers_are_references (p : Prog) (u : Nat) (o : Occ) (ho : p.occs[u]? = some o)
+    (g : Nat) (og : Occ) (hog : p.occs[g]? = some og)
+    (hgn : og.name = o.name) (hgr : og.role = .globalDecl) :
+    g ∈ refsG JediModel.Gen.C05.globalStepSameScopeOnly p u ∧
+    ∀ d od, p.occs[d]? = some od → od.name = o.name → od.scope = og.scope → od.role.isDef = true →
+      d ∈ refsG JediModel.Gen.C05.globalStepSameScopeOnly p u ∧
+      (p.kind og.scope ≠ .module → varOf p d = 0) := by
+  have hg : g ∈ globalDecls p o.name := by
+    unfold globalDecls
+    exact (mem_indices p _ g).mpr ⟨og, hog, by simp [hgn, hgr]⟩
+  have key := global_step_links_every_statement p (foundCtxs p u) o.name g og hg hog
+  have up : ∀ a, a ∈ globalVariablesOf JediModel.Gen.C05.globalStepSameScopeOnly p (foundCtxs p u) o.name →
+      a ∈ refsG JediModel.Gen.C05.globalStepSameScopeOnly p u := fun a ha =>
+    definingNamesG_sub_refsG _ p u o ho a (globalVariablesOf_sub_definingNamesG _ p u o ho a ha)
+  refine ⟨up g key.1, ?_⟩
+  intro d od hod hn hs hdef
+  constructor
+  · apply up d
+    apply key.2
+    unfold allDefsIn defsIn
+    exact (mem_indices p _ d).mpr ⟨od, hod, by simp [hn, hs, hdef]⟩
+  · intro hk
+    have hdg : declaredGlobal p og.scope o.name = true := by
+      unfold declaredGlobal
+      rw [List.any_eq_true]
+      exact ⟨og, List.mem_of_getElem? hog, by simp [hgn, hgr]⟩
+    unfold varOf
+    rw [hod]
+    have : ownerOfBinding p od.scope od.name = 0 := by
+      unfold ownerOfBinding
+      rw [hs, hn]
+      simp [hk, hdg]
+    cases hr : od.role <;> simp [hr, Role.isDef] at hdef ⊢ <;> exact this
+
+open Kind Role in
+/-- `def f():` / `    global a` / `    a = 0` / `def g():` / `    global a` / `    a = 0` / `f()` / `g()` / `a`:
+one module variable written in two declaring functions -/
+def witnessTwoGlobalWriters : Prog :=
+  { scopes := [⟨module, 0⟩, ⟨function, 0⟩, ⟨function, 0⟩],
+    occs := [⟨1, defName, 0, 0⟩, ⟨0, globalDecl, 1, 1⟩, ⟨0, bind, 1, 2⟩, ⟨2, defName, 0, 3⟩,
+             ⟨0, globalDecl, 2, 4⟩, ⟨0, bind, 2, 5⟩, ⟨1, use, 0, 6⟩, ⟨2, use, 0, 7⟩, ⟨0, use, 0, 8⟩] }
+
+/-- non-vacuity of `global_writers_are_references`: from `f`'s assignment the statement and the
+assignment of `g` are reported -/
+example : 4 ∈ refsG JediModel.Gen.C05.globalStepSameScopeOnly witnessTwoGlobalWriters 2 ∧
+    5 ∈ refsG JediModel.Gen.C05.globalStepSameScopeOnly witnessTwoGlobalWriters 2 :=
+  ⟨(global_writers_are_references witnessTwoGlobalWriters 2 ⟨0, .bind, 1, 2⟩ rfl 4 ⟨0, .globalDecl, 2, 4⟩ rfl rfl rfl).1,
+   ((global_writers_are_references witnessTwoGlobalWriters 2 ⟨0, .bind, 1, 2⟩ rfl 4 ⟨0, .globalDecl, 2, 4⟩ rfl rfl rfl).2
+      5 ⟨0, .bind, 2, 5⟩ rfl rfl rfl rfl).1⟩
+
+/-- counter-model for a global step that links a statement only to found names of its own scope
+(or of the module): from `f`'s assignment the assignment of `g` - the same variable - is lost,
+from the module-level use everything is reported: rename leaves a writer behind and the references
+are no partition.  With every statement linked all nine starts agree. -/
+theorem same_scope_only_loses_global_writers :
+    WF witnessTwoGlobalWriters = true ∧
+    varOf witnessTwoGlobalWriters 5 = varOf witnessTwoGlobalWriters 2 ∧
+    5 ∉ refsG true witnessTwoGlobalWriters 2 ∧ 2 ∉ refsG true witnessTwoGlobalWriters 5 ∧
+    5 ∈ refsG true witnessTwoGlobalWriters 8 ∧ 2 ∈ refsG true witnessTwoGlobalWriters 8 ∧
+    5 ∈ refsG false witnessTwoGlobalWriters 2 ∧ 2 ∈ refsG false witnessTwoGlobalWriters 5 := by decide
 
 /-! ## several modules
 
